@@ -301,6 +301,11 @@ def decl_source(d, doc=False, derive_debug_enums=True, vis=None):
             # the spellings of a doc comment: ///, #[doc = ".."], #[doc = concat!(..)] (a macro call as the value), /** .. */
             nm = strip_raw(f["name"])
             out.append(["    /// field %s", "    #[doc = \"field %s\"]", "    #[doc = concat!(\"field \", \"%s\")]", "    /** field %s */"][(k // 2) % 4] % nm)
+        # list-form doc attributes are documentation directives, not documentation: the field keeps its whole API (and its
+        # line in the Debug output)
+        dk = (d.get("id", 0) + k) % 7
+        if dk in (3, 5) and not f["name"].startswith("r#"):
+            out.append(["    #[doc(alias = \"al_%s\")]" % f["name"], "    #[doc(hidden)]"][dk == 5])
         out.append("    " + attr_text(f))
         if after:
             out.append(["    /// field %s (documented after the attribute)", "    #[doc = concat!(\"field %s\", \" (after, through concat!)\")]"][(k // 2) % 2] % strip_raw(f["name"]))
